@@ -66,7 +66,7 @@ def rand_record(rng, t=None, boundary=False):
         r.target = rand_hostname(rng, big=boundary)
         r.target_trailing = rng.random() < 0.5
     elif r.t == "TXT":
-        n = rng.choice([1, 2, 10, 40, 254, 255, 256, 300, 600] if boundary else [1, 2, 10, 40, 100])
+        n = rng.choice([1, 2, 10, 40, 254, 255, 256, 300, 600, 3570, 3571, 3824, 3825] if boundary else [1, 2, 10, 40, 100])
         r.txt = bytes(rng.choice([rng.randint(32, 126), rng.randint(0, 255), 34, 92]) for _ in range(n))
     elif r.t == "MX":
         r.pref = rng.choice([0, 1, 10, 65535, rng.randint(0, 65535)])
